@@ -9,15 +9,26 @@ correspondence):
 * `C16_js_tokens`: every reducible JS atom is ONE token — a character, or one complete escape
   `\uHHHH`, `\xHH`, `\u{H+}`, a backslash pair — never a fragment of an escape;
 * `C16_attrs_shape`: every reducible attribute atom is one complete attribute (leading whitespace,
-  name, optional `=value` including its closing quote).
-Not proved (monitor against an independent reference tokenizer, exhaustive on short strings): that
-the reducible JS tokens are exactly those inside properly TERMINATED strings (the back-tracking on
-an unterminated quote), and that attribute atoms lie inside a tag (DESIGN.md §4 C16, partial).
+  name, optional `=value` including its closing quote);
+* `C16_js_exact`: the reducible JS atoms, WITH THEIR BYTE OFFSETS in the file, are exactly the
+  characters and escape sequences inside properly terminated strings of the reference
+  segmentation `Js.specJs` (find the next quote; if the body behind it has a closing quote its
+  tokens are string characters; if the data ends first the quote is ordinary text and the search
+  goes on behind it) — through the scanner's back-tracking on an unterminated quote, the
+  header/footer cut and the gap merge (`LithiumProofs/SplitJsSpec.lean`);
+* `C16_attrs_in_tag`: every reducible attribute atom lies inside a tag: the parts before it end
+  with a part that ends in `<`, optional whitespace, a tag name, followed only by other complete
+  attributes and by text without a `>` (`LithiumProofs/SplitAttrsTag.lean`).
+The Python monitor still compares with an independent reference tokenizer (exhaustive on short
+strings): it ties the Lean model to the code, and `Js.specJs` to a second, independently written
+reading of the property.
 -/
 import LithiumProofs.SplitJs
 import LithiumProofs.SplitJsNe
 import LithiumProofs.SplitAttrs
 import LithiumProofs.SplitAttrsShape
+import LithiumProofs.SplitAttrsTag
+import LithiumProofs.SplitJsSpec
 
 namespace Js
 
@@ -92,6 +103,26 @@ theorem C16_js_tokens (d : Bytes) (s : Load.Split) (h : splitJs d = .ok s) :
     ∀ x ∈ s.parts.zip s.reducible, x.2 = true → IsTok x.1 :=
   splitJs_tokens d s h
 
+/-- JS-string mode, at full strength: list the reducible atoms of the split with their byte offsets
+in the file (`spans … header.length`); list the string characters of the reference segmentation
+with their byte offsets (`strChars d`, from `specJs`: characters and complete escape sequences
+between an opening quote and the first matching closing quote; a quote whose string body runs to
+the end of the data is ordinary text and scanning resumes right behind it).  The two lists are
+EQUAL — no delimiting quote, no text outside a string, nothing of an unterminated string is ever
+reducible, and nothing inside a terminated string is missing. -/
+theorem C16_js_exact (d : Bytes) (s : Load.Split) (h : splitJs d = .ok s) :
+    spans (s.parts.zip s.reducible) s.header.length = strChars d :=
+  splitJs_spans d s h
+
+/-- the reference segmentation on `x='a\x41'+"`: the two tokens of the terminated string at offsets
+3 and 4; the unterminated `"` contributes nothing -/
+example : strChars [0x78,0x3D,0x27,0x61,0x5C,0x78,0x34,0x31,0x27,0x2B,0x22] = [(3, [0x61]), (4, [0x5C,0x78,0x34,0x31])] := by
+  decide
+
+/-- an unterminated `'` does not hide the terminated `"…"` behind it: `'a"b"` -/
+example : strChars [0x27,0x61,0x22,0x62,0x22] = [(3, [0x62])] := by
+  decide
+
 end Js
 
 namespace Attrs
@@ -120,6 +151,14 @@ parse as an attribute are never flagged reducible (they are pushed with the flag
 theorem C16_attrs_shape (d : Bytes) (s : Load.Split) (h : splitAttrs d = .ok s) :
     ∀ x ∈ s.parts.zip s.reducible, x.2 = true → IsAttr x.1 :=
   splitAttrs_shape d s h
+
+/-- attribute mode: every reducible atom lies INSIDE A TAG — whenever the (atom, flag) list is
+`l1 ++ (a, true) :: l2`, the list `l1` is `l0 ++ (o, false) :: mid` where the part `o` ends with a tag
+opener (`<`, optional whitespace, a letter, tag-name characters) and `mid` holds only other complete
+attributes and non-reducible text WITHOUT a `>`; and `a` itself is one complete attribute. -/
+theorem C16_attrs_in_tag (d : Bytes) (s : Load.Split) (h : splitAttrs d = .ok s) :
+    AttrsInTag (s.parts.zip s.reducible) :=
+  splitAttrs_in_tag d s h
 
 /-- non-vacuity: `<a b="c d" e>` -/
 example :
